@@ -13,6 +13,10 @@ var gens = map[string]genFunc{
 	"C04": genCrash("C04", 5),
 	"C05": genC05,
 	"C08": genC08,
+	"C11": genC11,
+	"C12": genC12,
+	"C15": genC15,
+	"C16": genC16,
 }
 
 var rules = map[string]string{
@@ -23,6 +27,10 @@ var rules = map[string]string{
 	"C05": "random fill with tiny segments, Compact stepped yield point by yield point with Put/Delete inserted at the yield points, optional crash inside; full comparison after, and again after an unclean reopen",
 	"C06": "histories with Sync at random points (both sync modes), rollover, compaction, an earlier recovery; at sampled instants (after any file-system event) power-loss images are built from the recorded calls: nothing unsynced / everything / one file keeps j pending operations with the next write cut at sector boundaries / random mixtures; each image is reopened and every key must hold its value as of the last completed Sync or a later write",
 	"C09": "history, Close, next Open; power-loss images at every file-system event from the return of Close to the completion of the next Open; each image must reopen to exactly the closed contents",
+	"C11": "quiescent scan call by call (each live key exactly once with its value, then done twice) and a scan interleaved with Put/Delete/Compact between Next calls on states with long chains and mid-level split pointers; returned pairs must carry a value that was put for the key; keys untouched during the scan must be returned; the sequence is compared call by call with the chain-index model",
+	"C12": "Backup stepped at its yield points (snapshot, each segment copy) with Put/Delete in between (rollover mid-backup with tiny segments), also after a recovery; the opened backup must equal the reference map at the snapshot instant; the source is compared afterwards",
+	"C15": "overwrite/delete churn with periodic Compact and clean restarts; after every Compact: directory listing equals the model's (no stray file), open handles = segments + 2, then one of Sync/Put/Delete/Backup/Close+Open must succeed; includes delete-everything-then-compact",
+	"C16": "key lengths 0,1,2,255,256,65534,65535 and value lengths around 0, 512, the remainder and the capacity of a segment; over-long keys 65536, 65537, 131071 with a stored key of the truncated length; rejected Put leaves dump and segment bytes unchanged; restart and recovery",
 	"C08": "database + one of 8 kinds of damaged tail appended to a random segment (zeroes, strict prefix, bit flip in key/value/crc, garbage, valid-after-damaged, complete unacknowledged record, flip in length fields, huge claimed sizes); recovering Open compared with an independent decoder of the documented format and with the Coq reader",
 }
 
@@ -63,6 +71,17 @@ func runCheck(args []string) int {
 		cases = append(cases, c)
 		impls = append(impls, impl)
 	})
+	if d := os.Getenv("PGH_DUMP_OPS"); d != "" {
+		_ = os.MkdirAll(d, 0755)
+		for i, c := range cases {
+			var b []byte
+			for _, st := range c.Steps {
+				b = append(b, st.Cmd...)
+				b = append(b, '\n')
+			}
+			_ = os.WriteFile(fmt.Sprintf("%s/%s-%d.ops", d, prop, i), b, 0644)
+		}
+	}
 	runCases(res, cases, impls, !*noModel)
 	for i := 0; i < len(cases) && i < 2; i++ {
 		res.sample(cases[i], 25)
